@@ -394,6 +394,35 @@ fn main_check(ctx: &Ctx) -> Outcome {
         acc = acc.merge(a);
     }
 
+    // (g) long lists (a count of small items rather than one large item): n fields for n around 16, 32, 64, 128, 256,
+    //     512, 1024 and 5000, all the same code or cycling through codes, ending in a distinguishing code, a reset, a
+    //     malformed field, an empty field or a truncated extended form
+    {
+        let mut a = Acc::default();
+        let mut s = String::new();
+        for n in [15usize, 16, 17, 31, 32, 33, 63, 64, 65, 127, 128, 129, 255, 256, 257, 258, 511, 512, 513, 1023, 1024, 1025, 5000] {
+            for body in [&["1"][..], &["4"], &["31"], &["1", "3", "4", "38;5;9", "48;2;1;2;3"]] {
+                for tail in ["31", "0", "x", "", "256", "38;5", "58;2;1;2;3", "1;31"] {
+                    s.clear();
+                    let mut fields = 0usize;
+                    let mut k = 0usize;
+                    while fields < n {
+                        if !s.is_empty() {
+                            s.push(';');
+                        }
+                        s.push_str(body[k % body.len()]);
+                        fields += body[k % body.len()].split(';').count();
+                        k += 1;
+                    }
+                    s.push(';');
+                    s.push_str(tail);
+                    run_case("long lists", &s, &mut a, &col);
+                }
+            }
+        }
+        out.push_part(json!({"part":"g","system":"long lists: 23 lengths from 15 to 5000 fields x 4 bodies x 8 tails","cases":a.evals}));
+        acc = acc.merge(a);
+    }
     // (f) call histories: the result may depend on nothing but the argument.  Every ordered pair (and every triple over a
     //     smaller set) of inputs is parsed in order on a fresh thread (anything kept between calls - a scratch buffer, a
     //     cache - starts empty), and every answer is compared with the model; the first inputs include lists that stop early
@@ -404,6 +433,8 @@ fn main_check(ctx: &Ctx) -> Outcome {
             "48;2;1", "58;5", "x", "1;x", "31;;1", "256", "1;2;3;4;5;7;8;9", "0;0;0;0;0;0;0;0;0;0;0;0;0;0;0;0;0;0;0;0;0;0;0;0;0;0;0;0;0;0;0;0;0;0;0;0;7", "22;23;24", "39;49;59", "90;107",
             "38;5;1;38;6;2;4", "4;24", "58;5;9;24",
         ];
+        // near-twins of an accepted input (a cache keyed on too little of the text would confuse them)
+        let hist: Vec<&str> = hist.into_iter().chain(["31\0", "1;31\0", "1;31 ", "01;31", "1;031", "31;1", "1;31;"]).collect();
         let small: Vec<&str> = vec!["", "31", "38;6;1;7", "48;3;4;9;1", "x", "58;5;9", "1;38;2;1;2", "7"];
         let mut histories: Vec<Vec<&str>> = vec![];
         for a in &hist {
